@@ -52,14 +52,14 @@ CHECKS = {
     "C16": dict(
         technique="runtime trace monitor: statement shapes instrumented with effectful probes are executed under all valuations of their unknown conditions before and after each consumer rule; is_blocking / has_side_effect probed directly in their sound direction",
         category="exploration",
-        text="6.7k enumerated shapes of nesting depth <= 2 (if/elif/else, while/for with else, with, try/except/else/finally, return, raise, break, continue, assert over constant and unknown conditions; all in thorough, a 1.5k sample in quick), 336 pointless-statement candidates (an effectful call buried in comprehensions, conditional expressions, f-strings, subscripts, bool-ops, ...) and random depth-3 shapes are each followed by an observable statement; the trace (probe ids, return value, exception class) under all 24 valuations must be unchanged by delete_unreachable_code, delete_pointless_statements, remove_redundant_else, swap_if_else, breakout_common_code_in_ifs, remove_dead_ifs and six more rules, and by format_code(safe=True) with step attribution.",
+        text="6.7k enumerated shapes of nesting depth <= 2 (if/elif/else, while/for with else, with, try/except/else/finally, return, raise, break, continue, assert over constant and unknown conditions; all in thorough, a 1.5k sample in quick), ~460 pointless-statement candidates (an effectful call buried in comprehensions, conditional expressions, f-strings, subscripts, bool-ops, ...; calls that look pure by name only: a decorated function, a class with an effectful base, metaclass or __new__, a local function or parameter named like a pure module function, the method name of a constant called as a function in its own arguments; twenty operations on an object whose special methods log) and random depth-3 shapes are each followed by an observable statement; the trace (probe ids, return value, exception class) under all 24 valuations must be unchanged by delete_unreachable_code, delete_pointless_statements, remove_redundant_else, swap_if_else, breakout_common_code_in_ifs, remove_dead_ifs and six more rules, and by format_code(safe=True) with step attribution.",
         design_ref="DESIGN.md §4 C16",
         note="Unknowns range over {False, True} and {[], [1], [1, 2]}; probes capped at 40 events and spinning loops cut by a CPU timer (same verdict on both sides).",
     ),
     "C03": dict(
-        technique="runtime post-condition monitor (ast.parse) on format_code, on every rule step inside the pipeline (H-rule) and on every pipeline rule alone; fault injection at the scheduler and direct-edit APIs; complete fault enumeration of format_file's write guard observed through an audit hook (open-for-write events) and file metadata",
+        technique="runtime post-condition monitor (ast.parse) on format_code, on every rule step inside the pipeline (H-rule) and on every pipeline rule alone; fault injection at the scheduler and direct-edit APIs; complete fault enumeration of format_file's write guard observed through an audit hook (open-for-write events) and file metadata; kernel-level write faults (RLIMIT_FSIZE lowered to a fraction of the new content, EFBIG) injected while format_file writes, file read back afterwards",
         category="fault_enumeration",
-        text="Valid inputs (construct zoo x positions incl. indented fragments, repository examples, standard-library files) go through format_code under 7 option vectors with every rule call inside checked (~100k steps per quick run) and through each of the 85 pipeline rules alone; sub() on generated pattern triples; replacements that would break the syntax are injected through _replace_nodes / alter_code / remove_nodes / fix / chain. The write guard is decided by enumerating all 120 combinations of {file content: valid, invalid, skip_file, no trailing newline, empty} x {text returned by the formatter: same, valid changed, invalid, whitespace-only change, empty, invalid extension} x safe x file name with format_code stubbed, plus real runs: a valid file must never become invalid, an unchanged file must not be opened for writing nor reported as changed.",
+        text="Valid inputs (construct zoo x positions incl. indented fragments, repository examples, standard-library files) go through format_code under 7 option vectors with every rule call inside checked (~100k steps per quick run) and through each of the 85 pipeline rules alone; sub() on generated pattern triples; replacements that would break the syntax are injected through _replace_nodes / alter_code / remove_nodes / fix / chain. The write guard is decided by enumerating all 120 combinations of {file content: valid, invalid, skip_file, no trailing newline, empty} x {text returned by the formatter: same, valid changed, invalid, whitespace-only change, empty, invalid extension} x safe x file name with format_code stubbed, plus real runs: a valid file must never become invalid, an unchanged file must not be opened for writing nor reported as changed. 112 (230) write-fault cases: six (content, result) pairs x limits {0, 1, third, half, all but one byte, none} x safe/file name, plus real examples; the write is refused past the limit, format_file may raise, the file must still be valid.",
         design_ref="DESIGN.md §4 C03",
         note="Validity = ast.parse of CPython 3.12 (indented fragments after dedent); the write-guard enumeration is complete for the stated factor levels, the validity part is sampling.",
     ),
